@@ -181,6 +181,17 @@ CHECKS["C19"] = dict(
     design="§3 C19",
 )
 
+CHECKS["C15"] = dict(
+    category="exploration",
+    text="Six input packages (one / several top-level fields, union results, fragments mixin+unpacked, custom scalar with parse/serialize, arguments + mutation + subscription) x every subset of the five plugins "
+         "{ShorterResults, ExtractOperations, ClientForwardRefs, NoReimports, identity} in canonical order plus every ordered pair (quick) / every ordered subset, 326 (thorough); each plugged package is imported and every "
+         "non-subscription method driven on all reference responses with <= 1 deviation, compared with the unplugged package: requests, accept/reject, results (ShorterResults: exactly the single top-level field), "
+         "type hints (ClientForwardRefs), byte identity (identity, NoReimports except __init__); for every hook of Plugin two tagging plugins in both orders.",
+    note="Trusted: reference executor, typing.get_type_hints with the package namespace. Subscription frame behaviour is C13's subject.",
+    technique="exhaustive enumeration of plugin subsets and orders, differential comparison against the unplugged package on enumerated responses",
+    design="§3 C15",
+)
+
 PENDING_REASON = "check not built yet in this round (work in progress, see DESIGN.md §6)"
 NOT_APPLICABLE = {}
 
